@@ -101,3 +101,114 @@ package types
 //@   loop 1 invariant [step] i >= 0 && i % 100 == 0 && idsResult != nil && i <= len(idsResult.IDs) + 99
 //@   loop 1 invariant [chunk] get.count == 1 ==> get.arg2 == idsResult.IDs[iter(i):min(iter(i) + 100, len(idsResult.IDs))] && i == iter(i) + 100 && get.res1 == nil
 //@   loop 1 invariant [one-get] get.count <= 1
+
+// ---- C12: protobuf conversions ----------------------------------------------------------------
+// PbHdrOf(p): the header fields carried by a *pb.Header (nil Version reads as zero).
+
+//@ pred PbHdrOf(p) := Hdr(p.Height, p.Time, p.ChainId, val(p.LastHeaderHash), val(p.LastCommitHash), val(p.DataHash), val(p.ConsensusHash),
+//@                       val(p.AppHash), val(p.LastResultsHash), val(p.ValidatorHash), val(p.ProposerAddress),
+//@                       ite(p.Version != nil, p.Version.Block, 0), ite(p.Version != nil, p.Version.App, 0))
+
+//@ func (h *Header) ToProto() (p)
+//@   property C12
+//@   nopanic
+//@   fresh p
+//@   ensures [fields] p != nil && p.Version != nil && PbHdrOf(p) == HdrOf(h)
+
+//@ func (h *Header) FromProto(other) (err)
+//@   property C12 C09
+//@   nopanic
+//@   modifies h.*
+//@   ensures [nil-rejected] err != nil <==> other == nil
+//@   ensures [fields] err == nil ==> HdrOf(h) == PbHdrOf(other)
+//@   ensures [untouched-on-error] err != nil ==> HdrOf(h) == old(HdrOf(h))
+
+//@ pred PbMetaOf(p) := DMeta(true, p.ChainId, p.Height, p.Time, val(p.LastDataHash))
+
+//@ func (m *Metadata) ToProto() (p)
+//@   property C12
+//@   nopanic
+//@   fresh p
+//@   ensures [fields] p != nil && PbMetaOf(p) == MetaOf(m)
+
+//@ func (m *Metadata) FromProto(other) (err)
+//@   property C12 C09
+//@   nopanic
+//@   modifies m.*
+//@   ensures [nil-rejected] err != nil <==> other == nil
+//@   ensures [fields] err == nil ==> MetaOf(m) == PbMetaOf(other)
+
+//@ func txsToByteSlices(txs) (r)
+//@   property C12
+//@   nopanic
+//@   ensures [same] sameSeq(r, txs)
+//@   ensures [nil] txs == nil ==> r == nil
+//@   loop 1 invariant [copied] forall k :: 0 <= k && k <= rangeindex && k < len(txs) ==> bytes[k] == txs[k]
+//@   loop 1 invariant [len] len(bytes) == len(txs) && rangeindex >= -1
+
+//@ func byteSlicesToTxs(bytes) (r)
+//@   property C12 C09
+//@   nopanic
+//@   ensures [same] sameSeq(r, bytes)
+//@   ensures [never-nil] r != nil
+//@   loop 1 invariant [copied] forall k :: 0 <= k && k <= rangeindex && k < len(bytes) ==> txs[k] == bytes[k]
+//@   loop 1 invariant [len] len(txs) == len(bytes) && rangeindex >= -1
+
+//@ func (d *Data) ToProto() (p)
+//@   property C12
+//@   nopanic
+//@   fresh p
+//@   ensures [txs] p != nil && sameSeq(p.Txs, d.Txs)
+//@   ensures [meta] (d.Metadata == nil <==> p.Metadata == nil) && (d.Metadata != nil ==> PbMetaOf(p.Metadata) == MetaOf(d.Metadata))
+
+//@ func (d *Data) FromProto(other) (err)
+//@   property C12 C09
+//@   nopanic
+//@   modifies d.*, heap "types.Metadata.ChainID", heap "types.Metadata.Height", heap "types.Metadata.Time", heap "types.Metadata.LastDataHash"
+//@   ensures [nil-rejected] err != nil <==> other == nil
+//@   ensures [txs] err == nil ==> sameSeq(d.Txs, other.Txs) && d.Txs != nil
+//@   ensures [meta] err == nil ==> (other.Metadata == nil <==> d.Metadata == nil) && (other.Metadata != nil ==> MetaOf(d.Metadata) == PbMetaOf(other.Metadata))
+
+//@ func (sh *SignedHeader) ToProto() (p, err)
+//@   property C12
+//@   nopanic
+//@   fresh p
+//@   ensures [header] err == nil ==> p != nil && p.Header != nil && PbHdrOf(p.Header) == HdrOf(sh) && val(p.Signature) == val(sh.Signature) && p.Signer != nil
+//@   ensures [signer-key] err == nil && sh.Signer.PubKey != nil ==> val(p.Signer.PubKey) == pkenc(pkraw(sh.Signer.PubKey.val)) && val(p.Signer.Address) == val(sh.Signer.Address)
+//@   ensures [signer-address-kept] err == nil ==> val(p.Signer.Address) == val(sh.Signer.Address)
+
+//@ func (sh *SignedHeader) FromProto(other) (err)
+//@   property C12 C09
+//@   nopanic
+//@   modifies sh.*
+//@   ensures [rejects-nil] other == nil || other.Header == nil ==> err != nil
+//@   ensures [header] err == nil ==> HdrOf(sh) == PbHdrOf(other.Header) && val(sh.Signature) == val(other.Signature)
+//@   ensures [signer] err == nil && other.Signer != nil && len(other.Signer.PubKey) > 0 ==> sh.Signer.PubKey != nil
+//@                       && pkenc(pkraw(sh.Signer.PubKey.val)) == val(other.Signer.PubKey) && val(sh.Signer.Address) == val(other.Signer.Address)
+//@   ensures [no-signer] err == nil && (other.Signer == nil || len(other.Signer.PubKey) == 0) ==> sh.Signer.PubKey == nil && len(sh.Signer.Address) == 0
+
+//@ func (sd *SignedData) FromProto(other) (err)
+//@   property C12 C09
+//@   nopanic
+//@   modifies sd.*, heap "types.Metadata.ChainID", heap "types.Metadata.Height", heap "types.Metadata.Time", heap "types.Metadata.LastDataHash"
+//@   ensures [rejects-nil] other == nil ==> err != nil
+//@   ensures [data] err == nil && other.Data != nil ==> sameSeq(sd.Data.Txs, other.Data.Txs)
+//@   ensures [signature] err == nil ==> val(sd.Signature) == val(other.Signature)
+//@   ensures [signer] err == nil && other.Signer != nil && len(other.Signer.PubKey) > 0 ==> sd.Signer.PubKey != nil
+//@                       && pkenc(pkraw(sd.Signer.PubKey.val)) == val(other.Signer.PubKey) && val(sd.Signer.Address) == val(other.Signer.Address)
+
+//@ pred PbStateOf(p) := StateR(ite(p.Version != nil, p.Version.Block, 0), ite(p.Version != nil, p.Version.App, 0), p.ChainId, p.InitialHeight, p.LastBlockHeight,
+//@                       ite(p.LastBlockTime != nil, p.LastBlockTime.tval, 0), p.DaHeight, val(p.LastResultsHash), val(p.AppHash))
+
+//@ func (s *State) ToProto() (p, err)
+//@   property C12
+//@   nopanic
+//@   fresh p
+//@   ensures [fields] err == nil && p != nil && p.LastBlockTime != nil && p.Version != nil && PbStateOf(p) == StateOf(s)
+
+//@ func (s *State) FromProto(other) (err)
+//@   property C12
+//@   nopanic
+//@   modifies s.*
+//@   ensures [nil-rejected] err != nil <==> other == nil
+//@   ensures [fields] err == nil ==> StateOf(s) == PbStateOf(other)
